@@ -400,6 +400,23 @@ func exprPoly(info *types.Info, e ast.Expr, defs map[types.Object]localDef, stop
 			}
 			return polyAtom(f.Name() + "(" + strings.Join(args, ",") + ")"), true
 		}
+	case *ast.IndexExpr:
+		// element of an indexable value: opaque atom with a canonical index
+		ip, ok := exprPoly(info, x.Index, defs, stop, depth+1)
+		if !ok {
+			return nil, false
+		}
+		base := strings.ReplaceAll(types.ExprString(x.X), " ", "")
+		if polyAbstract {
+			base = absName(info, x.X)
+		}
+		return polyAtom(base + "[" + strings.NewReplacer("*", "\u00b7", " ", "").Replace(ip.String()) + "]"), true
+	case *ast.SliceExpr:
+		txt := strings.ReplaceAll(types.ExprString(x), " ", "")
+		if polyAbstract {
+			txt = absName(info, x.X) + "[:]"
+		}
+		return polyAtom(strings.ReplaceAll(txt, "*", "\u00b7")), true
 	case *ast.BinaryExpr:
 		a, ok1 := exprPoly(info, x.X, defs, stop, depth+1)
 		b, ok2 := exprPoly(info, x.Y, defs, stop, depth+1)
@@ -420,11 +437,21 @@ func exprPoly(info *types.Info, e ast.Expr, defs map[types.Object]localDef, stop
 			if cb, ok := b.isConst(); ok && cb >= 0 && cb < 62 {
 				return polyMul(a, polyConst(int64(1)<<uint(cb))), true
 			}
+			return polyAtom("shl(" + strings.NewReplacer("*", "\u00b7", " ", "").Replace(a.String()) + "," + strings.NewReplacer("*", "\u00b7", " ", "").Replace(b.String()) + ")"), true
 		case token.SHR:
 			// x >> c with a constant c is floor(x / 2^c) on unsigned operands
 			if cb, ok := b.isConst(); ok && cb >= 0 && cb < 62 {
 				return polyDiv(a, polyConst(int64(1)<<uint(cb))), true
 			}
+			return polyAtom("shr(" + strings.NewReplacer("*", "\u00b7", " ", "").Replace(a.String()) + "," + strings.NewReplacer("*", "\u00b7", " ", "").Replace(b.String()) + ")"), true
+		case token.AND, token.OR, token.XOR, token.AND_NOT:
+			// bitwise operators: opaque canonical atoms (operands of the commutative ones sorted)
+			sa := strings.NewReplacer("*", "\u00b7", " ", "").Replace(a.String())
+			sb := strings.NewReplacer("*", "\u00b7", " ", "").Replace(b.String())
+			if x.Op != token.AND_NOT && sb < sa {
+				sa, sb = sb, sa
+			}
+			return polyAtom("(" + sa + x.Op.String() + sb + ")"), true
 		case token.REM:
 			safe := func(p Poly) string {
 				return strings.NewReplacer("*", "\u00b7", " ", "").Replace(p.String())
@@ -621,12 +648,24 @@ var _ = packages.NeedName
 // sibling cross-check to recognise a renamed local.
 var polyAbstract = false
 
+// polyAbsSeen numbers the locals met during one abstract evaluation; callers reset it (nil) per top-level expression.
+var polyAbsSeen map[types.Object]int
+
 func absName(info *types.Info, e ast.Expr) string {
 	switch x := ast.Unparen(e).(type) {
 	case *ast.Ident:
 		if v, ok := info.ObjectOf(x).(*types.Var); ok && !v.IsField() && v.Pkg() != nil && v.Parent() != v.Pkg().Scope() {
 			t := types.TypeString(v.Type(), func(*types.Package) string { return "" })
-			return "\u00a7" + strings.TrimLeft(t, "*")
+			// distinct locals of one type stay distinct: numbered by first occurrence in the expression at hand
+			if polyAbsSeen == nil {
+				polyAbsSeen = map[types.Object]int{}
+			}
+			k, ok := polyAbsSeen[v]
+			if !ok {
+				k = len(polyAbsSeen) + 1
+				polyAbsSeen[v] = k
+			}
+			return fmt.Sprintf("\u00a7%s#%d", strings.TrimLeft(t, "*"), k)
 		}
 		return x.Name
 	case *ast.SelectorExpr:
